@@ -231,3 +231,11 @@ Fixpoint mismatches_from (i : nat) (cs : list hist) : list nat :=
   | c :: r => if check_case c then mismatches_from (S i) r else i :: mismatches_from (S i) r
   end.
 Definition mismatches (cs : list hist) : list nat := mismatches_from 0 cs.
+
+(** one case of the correspondence run = a group of recorded histories *)
+Fixpoint mismatches_groups_from (i : nat) (gs : list (list hist)) : list nat :=
+  match gs with
+  | [] => []
+  | g :: r => if forallb check_case g then mismatches_groups_from (S i) r else i :: mismatches_groups_from (S i) r
+  end.
+Definition mismatches_groups (gs : list (list hist)) : list nat := mismatches_groups_from 0 gs.
